@@ -715,6 +715,20 @@ func Join(locs ...Location) Location {
 		list.Push(loc, true)
 	}
 
+	// Replacing the last element (e.g. a site absorbed by the point that
+	// follows it) can make it mergeable with its predecessor, so reduce
+	// until nothing changes.
+	for n := list.Len(); n > 1; n = list.Len() {
+		next := LocationList{}
+		for _, loc := range list.Slice() {
+			next.Push(loc, true)
+		}
+		list = next
+		if list.Len() == n {
+			break
+		}
+	}
+
 	switch list.Len() {
 	case 0:
 		panic("Join without arguments is not allowed")
